@@ -82,13 +82,32 @@ def run(F, R):
         g = c.fn
         ok, how = _from_ensure(F, g, c.args[0], 0)
         R.check(ok, "C20.R3", f"reader:{F.bodies[g.path].get('root') or g.path}#{_ord(g, c)}", f"read_row_group dir does not come from ensure_sidecar ({how})", g.loc(c.bb), dict(how=how))
+    # ---- R5 the completion stamp describes the file the sidecar was BUILT FROM: it is computed from the metadata
+    # ensure_sidecar read before the build (the same value is_fresh() judged), never re-read at the end of the build
+    R.rule("C20.R5", "K5 provenance", "stamp_value's argument in build_sidecar derives from its parameter; ensure_sidecar passes the metadata it checked with is_fresh; build_sidecar never stats the source itself")
+    sv = [c for c in b.calls() if c.name == I + "::stamp_value"]
+    restat = [c for g in F.family(b.path) for c in g.calls() if c.name in ("std::fs::metadata", "std::fs::File::metadata", "std::fs::symlink_metadata")]
+    okp = bool(sv) and all(origin(b, c.args[0])[0] == "arg" for c in sv) and not restat
+    R.check(okp, "C20.R5", "build_sidecar:stamp-from-pre-build-metadata", "the `.complete` stamp is computed from metadata read during/after the build: a file replaced while the build runs gets a sidecar of OLD rows stamped as fresh for the NEW file", b.loc(sv[0].bb) if sv else b.loc(), dict(stamp_calls=len(sv), restats=[str(c) for c in restat][:2]))
+    es0 = F.fn(I + "::ensure_sidecar")
+    bs = [c for c in es0.calls() if c.name == I + "::build_sidecar"]
+    fr = [c for c in es0.calls() if c.name == I + "::is_fresh"]
+    oks = bool(bs) and bool(fr)
+    for c in bs:
+        metas = [a for a, t in zip(c.args, c.argtys) if "Metadata" in t]
+        oks = oks and len(metas) == 1 and all(same_origin(es0, metas[0], fc.args[1]) or k9.kexpr(es0, metas[0]) == k9.kexpr(es0, fc.args[1]) for fc in fr)
+    R.check(oks, "C20.R5", "ensure_sidecar:same-metadata-checked-and-stamped", "build_sidecar is not handed the metadata that is_fresh() was evaluated against", es0.loc(), dict(builds=len(bs), fresh_checks=len(fr)))
+
     # ---- R4
     locks = [c for c in es.calls() if c.name.rsplit("::", 1)[-1] == "lock" and "Mutex" in c.self_ty]
     builds = [c for c in es.calls() if c.name == I + "::build_sidecar"]
     fresh2 = [c for c in es.calls() if c.name == I + "::is_fresh"]
     R.floor("C20.R4", "lock/build sites", len(locks) + len(builds), 2)
     if locks and builds:
-        lk, bd = locks[0], builds[0]
+        bd = builds[0]
+        # the builder lock is the lock call closest to the build that dominates it
+        doms = [c for c in locks if es.dominates(c.bb, bd.bb)]
+        lk = doms[-1] if doms else locks[0]
         # locals holding the guard: forward from lock dest through ok()/?/moves
         held = set()
         work = [place_local(lk.dest)]
@@ -116,6 +135,9 @@ def run(F, R):
         drops = [i for i, bl in enumerate(es.blocks) if bl["t"][0] == "drop" and place_local(bl["t"][1]) in guard_locals and i in es.live_blocks()]
         early = [d for d in drops if es.path_exists(d, bd.bb)]
         after_lock = es.dominates(lk.bb, bd.bb) and any(es.dominates(lk.bb, c.bb) and es.dominates(c.bb, bd.bb) for c in fresh2)
+        # one process-wide lock: the mutex is a `static`, not a value looked up per path spelling
+        lock_static = k9.kexpr(es, lk.args[0]).startswith("#") or any(isinstance(rv[1], dict) and "static" in rv[1] for i, j, dst, rv, line in es.stmts() if rv[0] == "use" and derives_from(es, [lk.args[0]], lambda k, x, d=dst: (k == "place" and x == d) or None))
+        R.check(lock_static, "C20.R4", "ensure_sidecar:lock-is-process-wide-static", "builders are serialised by a lock that is not one process-wide static: two spellings of the same file (symlink, `..`) take different locks and build into the same staging directory", es.loc(lk.bb), dict(lock=k9.kexpr(es, lk.args[0])[:80]))
         R.check(bool(guard_locals) and not early and after_lock, "C20.R4", "ensure_sidecar:guard-held-across-build", "the BUILD_LOCK guard is dropped before the re-check/build (or the re-check is missing): two threads can build the same sidecar", es.loc(lk.bb), dict(guard_locals=guard_locals, early_drops=early))
 
 
